@@ -9,6 +9,7 @@ package main
 
 import (
 	"fmt"
+	"os"
 	"sort"
 	"strings"
 	"time"
@@ -62,6 +63,7 @@ type Stats struct {
 	FeasSat        int            `json:"feasibility_sat"`
 	FeasUnsat      int            `json:"feasibility_unsat"`
 	FeasByModel    int            `json:"feasibility_by_model"`
+	FiniteDomain   int            `json:"finite_domain_decisions"`
 	AssertTrivial  int            `json:"assert_trivially_true"`
 	AssertUnsat    int            `json:"assert_unsat"`
 	AssertSat      int            `json:"assert_sat"`
@@ -94,6 +96,9 @@ type Exec struct {
 	stack     []pending
 	facts     map[int32]bool // conditions already decided on this path (by term id)
 	known     map[int32]uint64 // terms concretised on this path
+	doms      map[int32]*domain // finite-domain filter: feasible values of small single variables
+	multi     map[int32]bool    // variables that occur in a multi-variable constraint of this path
+	sizes     map[int32]int
 	pc        []*Term        // asserted conditions of the current path
 
 	stats      Stats
@@ -187,6 +192,7 @@ func (ex *Exec) branchV(cond *Term, val uint64) bool {
 		ex.facts[cond.id] = ev.dir
 		if ev.kind == evChoice {
 			ex.pc = append(ex.pc, ex.dirTerm(cond, ev.dir))
+			ex.noteConstraint(cond, ev.dir)
 		}
 		if ex.pos == ex.replayN && ev.kind == evChoice {
 			// this is the flipped decision: assert it now
@@ -204,8 +210,28 @@ func (ex *Exec) branchV(cond *Term, val uint64) bool {
 	if dir {
 		other = ex.ts.BNot(cond)
 	}
-	r, m := ex.solver.CheckWith(other)
-	ex.count(r)
+	var r SatResult
+	var m Model
+	if ok, canT, canF, v, wT, wF := ex.domainDecide(cond); ok && (canT || canF) && (dir && canT || !dir && canF) {
+		ex.stats.FiniteDomain++
+		otherOK, w := canF, wF
+		if !dir {
+			otherOK, w = canT, wT
+		}
+		if otherOK {
+			r = Sat
+			m = Model{}
+			for k, x := range ex.model {
+				m[k] = x
+			}
+			m[v.id] = w
+		} else {
+			r = Unsat
+		}
+	} else {
+		r, m = ex.solver.CheckWith(other)
+		ex.count(r)
+	}
 	if r == Unsat {
 		ex.stats.ForcedBranches++
 		ex.facts[cond.id] = dir
@@ -222,6 +248,7 @@ func (ex *Exec) branchV(cond *Term, val uint64) bool {
 	ex.stack = append(ex.stack, pending{alt, m})
 	ex.facts[cond.id] = dir
 	ex.pc = append(ex.pc, ex.dirTerm(cond, dir))
+	ex.noteConstraint(cond, dir)
 	ex.push(event{evChoice, dir, val}, true, cond)
 	return dir
 }
@@ -278,10 +305,12 @@ func (ex *Exec) Assume(cond *Term) {
 		}
 		ex.pc = append(ex.pc, cond)
 		ex.facts[cond.id] = true
+		ex.noteConstraint(cond, true)
 		return
 	}
 	ex.pc = append(ex.pc, cond)
 	ex.facts[cond.id] = true
+	ex.noteConstraint(cond, true)
 	ex.solver.Push()
 	ex.solver.Assert(cond)
 	ex.events = append(ex.events, event{evAssume, true, 0})
@@ -323,6 +352,7 @@ func (ex *Exec) Assert(cond *Term, label string) {
 			}
 			ex.pc = append(ex.pc, cond)
 			ex.facts[cond.id] = true
+			ex.noteConstraint(cond, true)
 		}
 		return
 	}
@@ -340,6 +370,7 @@ func (ex *Exec) Assert(cond *Term, label string) {
 		}
 		ex.pc = append(ex.pc, cond)
 		ex.facts[cond.id] = true
+		ex.noteConstraint(cond, true)
 		ex.solver.Push()
 		ex.solver.Assert(cond)
 		record(true)
@@ -413,10 +444,34 @@ func (ex *Exec) Concretize(t *Term, what string) uint64 {
 	}
 	for i := 0; ; i++ {
 		if i > 4096 {
+			if os.Getenv("GOSYMEX_DEBUG") != "" {
+				fmt.Fprintf(os.Stderr, "DEBUG concretize loop: t=%s model-eval=%d pos=%d replayN=%d facts=%v\n", t, Eval(t, ex.model), ex.pos, ex.replayN, len(ex.facts))
+				for _, c := range ex.pc {
+					if Eval(c, ex.model) == 0 {
+						fmt.Fprintf(os.Stderr, "  pc term false under model: %s\n", c)
+					}
+				}
+			}
 			ex.endPath("unsupported", "concretisation of "+what+" exceeds 4096 values")
 		}
 		var v uint64
 		if ex.pos < ex.replayN {
+			// a candidate that the path condition already pins down was decided from the
+			// fact cache in the original run as well (no event recorded)
+			if ex.model != nil {
+				v0 := Eval(t, ex.model)
+				c := ex.ts.Eq(t, Const(int(t.w), v0))
+				if d, ok := ex.facts[c.id]; c.IsConst() && c.k != 0 || ok && d {
+					ex.known[t.id] = v0
+					return v0
+				}
+				if c.op == OpBNot {
+					if d, ok := ex.facts[c.a.id]; ok && !d {
+						ex.known[t.id] = v0
+						return v0
+					}
+				}
+			}
 			v = ex.events[ex.pos].val
 		} else {
 			ex.ensureModel()
@@ -490,6 +545,8 @@ func (ex *Exec) runPath(p pending, run func()) {
 	ex.observed = ex.observed[:0]
 	ex.facts = map[int32]bool{}
 	ex.known = map[int32]uint64{}
+	ex.doms = map[int32]*domain{}
+	ex.multi = map[int32]bool{}
 	ex.pc = ex.pc[:0]
 	ex.fuel = ex.maxFuel
 	ex.depth = 0
